@@ -5,6 +5,7 @@
 import NxsModel.Driver.Frame
 import NxsModel.Driver.Codec
 import NxsModel.Driver.Stream
+import NxsModel.Driver.Reasm
 open Nxs Nxs.Driver
 
 def dispatch (toks : List String) : String :=
@@ -16,6 +17,7 @@ def dispatch (toks : List String) : String :=
   | "pad" :: rest => (padOp rest).getD "bad-op"
   | "rec" :: rest => (recOp rest).getD "bad-op"
   | "stream" :: rest => (streamOp rest).getD "bad-op"
+  | "reasm" :: rest => (reasmOp rest).getD "bad-op"
   | _ => "bad-op"
 
 partial def loop (h : IO.FS.Stream) (out : IO.FS.Stream) : IO Unit := do
